@@ -664,19 +664,64 @@ def te_precedence(ctx, rule, key_suffix):
 
 
 def header_split_rule(ctx, rule):
-    """Header::from_str splits the line once, at the FIRST colon, and takes the name from the part before it."""
+    """`impl FromStr for Header`: on every accepting path the name is what precedes the FIRST colon of the line and the value what follows it
+    (colons included), whatever primitive the code splits with.  Decided on the abstract paths of the parser: the name / value of the
+    returned Header must come out of one `splitn(2, ':')`, `split_once(':')` or `find(':')` of the whole input."""
+    import inline, absint
+    import queue_rules as Q
     facts = ctx.facts
-    f = method(facts, T_FROMSTR, HEADER, "from_str")
+    f0 = method(facts, T_FROMSTR, HEADER, "from_str")
+    same = lambda d: facts.fns[d].rec.get("local") and facts.fns[d].file == f0.file and ("FromStr" not in d or d.startswith(f0.id + "::"))
+    f = inline.inlined(facts, f0.id, stop=lambda d: facts.fns[d].rec.get("local") and not same(d), extern_ok=Q.std_small)
     ctx.touch(f)
-    sp = [(bb, t) for bb, t in f.calls() if call_matches(t, r"<impl str>::(splitn|split_once|split|rsplitn|rsplit_once|rsplit|find|rfind|split_terminator)(::<|$)")]
-    ok = len(sp) == 1 and call_matches(sp[0][1], r"<impl str>::splitn(::<|$)")
-    if ok:
-        cs = arg_consts(f, sp[0][1])
-        ok = cs[1] == 2 and cs[2] == ("char", ":") and any(x == ("arg", 1) for x in origin_walk(f.origin(sp[0][1]["args"][0])))
-    ctx.ob(rule, "%s|split-at-first-colon" % f.id, "a header line is split exactly once, at its first colon (name = everything before it, value = everything after it, colons included)",
-           ok, "%s:%d" % (f.file, f.line), None if ok else "splitting calls: %s" % [(short(call_name(t)), arg_consts(f, t)[1:]) for _, t in sp])
-    return f
-
+    INPUT = ("init", (1,))
+    ps = [p for p in absint.explore(f, 0, None, max_paths=3000) if p.end[0] == "return" and p.ret()[0] == "agg" and p.ret()[2] == "Ok"]
+    ctx.paths += len(ps)
+    bad = []
+    GOOD = r"<impl str>::(splitn|split_once|find)(::<|$)"
+    BADC = r"<impl str>::(rsplitn|rsplit_once|rfind|rsplit|split|split_terminator|split_inclusive|rsplit_terminator|matches|match_indices)(::<|$)"
+    hf = [x["name"] for x in facts.adt(HEADER)["variants"][0]["fields"] if x["ty"] == HFIELD][0]
+    for p in ps:
+        h = absint.deep(p.state, p.ret()[3]["0"])
+        if not (h[0] == "agg" and h[1] == HEADER):
+            bad.append("does not return a Header")
+            continue
+        for part, v in h[3].items():
+            splits = [x for x in absint.walk_terms(v) if x and x[0] == "call" and re.search(GOOD + "|" + BADC, x[1])]
+            goods = [x for x in splits if re.search(GOOD, x[1])]
+            bads = [x for x in splits if not re.search(GOOD, x[1])]
+            if bads or not goods:
+                bad.append("%s comes from %s" % ("name" if part == hf else "value", sorted({short(x[1]) for x in splits}) or "no split"))
+                continue
+            for x in goods:
+                pat = [y for a in x[2][1:] for y in absint.walk_terms(a) if y and y[0] == "const"]
+                pats = [y[1] for y in pat if not isinstance(y[1], bool)]
+                is_colon = any(y == ":" or y == ("char", ":") or y == 58 for y in pats) and not any(isinstance(y, str) and len(y) > 1 for y in pats)
+                if not is_colon:
+                    bad.append("split pattern %s" % pats)
+                if re.search(r"splitn", x[1]) and 2 not in [y for y in pats if isinstance(y, int)]:
+                    bad.append("splitn with limit %s" % [y for y in pats if isinstance(y, int)])
+                if not any(y and y[0] == "init" and y[1] and y[1][0] == 1 for y in absint.walk_terms(x[2][0])) or any(y and y[0] == "call" and re.search(r"trim|strip_|\\bget\\b|index", y[1]) for y in absint.walk_terms(x[2][0])):
+                    bad.append("the split is not applied to the whole line")
+        # which side is which: with splitn the name is the first `next()`, with split_once / find the part before
+        name_v, val_v = h[3].get(hf), [v for k, v in h[3].items() if k != hf][0]
+        nn = [x for x in absint.walk_terms(name_v) if x and x[0] == "call" and re.search(r"SplitN<.*> as std::iter::Iterator>::next$", x[1] + " " + (x[4] if len(x) > 4 else ""))]
+        nv = [x for x in absint.walk_terms(val_v) if x and x[0] == "call" and re.search(r"SplitN<.*> as std::iter::Iterator>::next$", x[1] + " " + (x[4] if len(x) > 4 else ""))]
+        if nn and nv:
+            first = min(e[0] for e in p.calls() if re.search(r"SplitN<.*> as std::iter::Iterator>::next$", e[2] + " " + (e[7] or "")))
+            order = [e[0] for e in p.calls() if re.search(r"SplitN<.*> as std::iter::Iterator>::next$", e[2] + " " + (e[7] or ""))]
+            if nn[0][3] != order[0] or (len(order) > 1 and nv[0][3] != order[1]):
+                bad.append("name / value are not the first / second part of the split")
+        def once_fields(v):
+            return [x for x in absint.walk_terms(v) if x and x[0] == "field" and x[2] in ("0", "1") and x[1] and x[1][0] == "payload" and absint.head_call(x[1]) is not None
+                    and re.search(r"<impl str>::split_once(::<|$)", absint.head_call(x[1])[1])]
+        fields0, fields1 = once_fields(name_v), once_fields(val_v)
+        if fields0 and fields1 and (fields0[0][2] != "0" or fields1[0][2] != "1"):
+            bad.append("name / value are not the part before / after the colon")
+    ok = bool(ps) and not bad
+    ctx.ob(rule, "%s|split-at-first-colon" % f0.id, "a header line is split exactly once, at its first colon (name = everything before it, value = everything after it, colons included)",
+           ok, "%s:%d" % (f0.file, f0.line), None if ok else str(sorted(set(bad))[:4]))
+    return f0
 
 
 def pool_counter_discipline(ctx, rule):
